@@ -52,6 +52,18 @@ pub struct ScenarioSpec {
     /// The name and every step text get ` <v>` appended in the Gherkin source.
     #[serde(default)]
     pub examples: Option<Vec<String>>,
+    /// Name the scenario shows (several scenarios may share it); `name` stays the harness's identity
+    /// of the scenario and travels in a `sid.<name>` tag. Never set for outlines.
+    #[serde(default, skip_serializing_if = "Option::is_none")]
+    pub display: Option<String>,
+}
+
+/// Tag prefix carrying a scenario's identity when its shown name is shared with others.
+pub const SID_TAG: &str = "sid.";
+
+/// Identity of a scenario as the harness knows it: its `sid.` tag if it has one, else its name.
+pub fn scenario_identity(s: &cucumber::gherkin::Scenario) -> String {
+    s.tags.iter().find_map(|t| t.strip_prefix(SID_TAG)).map_or_else(|| s.name.clone(), str::to_owned)
 }
 
 #[derive(Clone, Debug, Serialize, Deserialize)]
@@ -314,18 +326,23 @@ impl Emit {
     }
     fn scenario(&mut self, indent: &str, s: &ScenarioSpec) -> gh::Scenario {
         self.ln("");
-        self.tags(indent, &s.tags);
+        let mut all_tags = s.tags.clone();
+        if s.display.is_some() && s.examples.is_none() {
+            all_tags.push(format!("{SID_TAG}{}", s.name));
+        }
+        self.tags(indent, &all_tags);
         match &s.examples {
             None => {
-                let line = self.ln(&format!("{indent}Scenario: {}", s.name));
+                let shown = s.display.clone().unwrap_or_else(|| s.name.clone());
+                let line = self.ln(&format!("{indent}Scenario: {shown}"));
                 let steps = self.steps(&format!("{indent}  "), &s.steps, "");
                 gh::Scenario {
                     keyword: "Scenario".into(),
-                    name: s.name.clone(),
+                    name: shown,
                     description: None,
                     steps,
                     examples: Vec::new(),
-                    tags: s.tags.clone(),
+                    tags: all_tags.clone(),
                     span: gh::Span::default(),
                     position: gh::LineCol { line, col: indent.len() + 1 },
                 }
